@@ -21,6 +21,9 @@ CLAIMED["C05"] = ("partial", "call-level theorems (every release is by the holde
 CLAIMED["C10"] = ("partial; known finding F3 (scoped call of a collection containing the wrapper)", "C10_no_panic_no_poison for every call in every world; guard-panic and own-scoped-panic poisoning; poisoned acquisition still holds; C10_refuted_scoped_collection witnesses the finding; three-valued monitor (strict / relaxed) on model and implementation", "7 C10, 11", "syntactic 'handlers only' invariant + quiet-world lemmas + vm_compute witness")
 CLAIMED["C11"] = ("partial (sequential part; waiters proceed is C01)", "closure panic and guard panic release every hold once, restore the table, keep the key obtainable/usable, for every shape; handle_unwind never swallows a panic; " + HIST % "C11", "7 C11", "quiet-world lemmas over the program syntax + differential execution")
 CLAIMED["C17"] = ("partial", "Debug formatting never waits in any world and disturbs no hold; accessors issue no raw operation; " + HIST % "C17", "7 C17", "syntactic non-blocking invariant + quiet-world lemma + differential execution")
+CLAIMED["C01"] = ("partial", "C01_no_deadlock / C01_no_self_wait: in every Level-B state satisfying the rank discipline (a decidable test, proved sound, with the scenario's address-based rank proved bounded) some thread can move, for any number of threads, programs, locks and both grant policies; the test is evaluated in every state of every explored schedule of the model and the interleaved model is compared event by event with the implementation under a deterministic scheduler; unproved: that all reachable states of the API programs satisfy the discipline", "7 C01", "rank argument (induction on bound - rank) + executable small-step model + differential execution under a deterministic scheduler")
+CLAIMED["C02"] = ("partial (raw-lock exclusion is the specification)", "guard / closure positions denote exactly the declared leaves and those are exactly the locks acquired; closure runs between acquisition and release; interleaved monitor (data only under a hold of that very lock, versions continuous) on model and implementation with a scheduling point at every data access", "7 C02", "structural induction over shapes + differential execution with tagged, versioned payloads")
+CLAIMED["C09"] = ("full for the safety half and conditional completion (sequential big-step); interleaved half by correspondence", "C09_retry_blocks_holding_nothing: from any hold table the retrying acquisition either finishes holding every member once or waits holding a proper prefix of ONE member (nothing for plain locks); interleaved monitor on what every waiting thread holds", "7 C09", "induction over the member list with the source's bookkeeping + differential execution")
 PENDING = {}
 props = [json.loads(l) for l in open(os.path.join(V, "properties.jsonl"))]
 checks, na = [], []
